@@ -162,6 +162,21 @@ impl MemQueues {
         }
     }
 
+    #[cfg(mrecordlog_verif)]
+    pub(crate) fn verif_queues(&self) -> Vec<crate::verif::QueueSnapshot> {
+        let mut queues: Vec<crate::verif::QueueSnapshot> = self
+            .queues
+            .iter()
+            .map(|(name, queue)| crate::verif::QueueSnapshot {
+                name: name.clone(),
+                start_position: queue.start_position(),
+                records: queue.verif_records(),
+            })
+            .collect();
+        queues.sort_by(|left, right| left.name.cmp(&right.name));
+        queues
+    }
+
     /// Return a tuple of (size, capacity) of memory used by the memqueues
     pub fn size(&self) -> (usize, usize) {
         let size = self
